@@ -150,6 +150,46 @@ class CountingLock(object):
         return self.real.release()
 
 
+class _OsProxy(object):
+    """Stands in for the `os` module inside whoosh.filedb.filestore while one storage method runs, so that the system
+    calls a method is made of (a placeholder created, then replaced; a remove retried) are boundaries of their own"""
+    TICKED = ("rename", "replace", "remove", "unlink", "open", "link", "truncate")
+
+    def __init__(self, real, clock):
+        self._real = real
+        self._clock = clock
+
+    def __getattr__(self, name):
+        v = getattr(self._real, name)
+        if name in self.TICKED:
+            clock = self._clock
+
+            def wrapped(*a, **kw):
+                clock.tick("os." + name, repr(a[:2])[-120:])
+                return v(*a, **kw)
+            return wrapped
+        return v
+
+
+class _os_calls_tick(object):
+    def __init__(self, clock):
+        self.clock = clock
+
+    def __enter__(self):
+        from whoosh.filedb import filestore
+        self.saved = filestore.os
+        if not getattr(self.clock, "os_level", False):
+            # only the crash check asks for this granularity (C03 / C04 place their actions relative to the
+            # storage-level rename and lock operations)
+            return
+        real = self.saved._real if isinstance(self.saved, _OsProxy) else self.saved
+        filestore.os = _OsProxy(real, self.clock)
+
+    def __exit__(self, *a):
+        from whoosh.filedb import filestore
+        filestore.os = self.saved
+
+
 class FaultStorage(FileStorage):
     def __init__(self, path, clock, supports_mmap=True):
         FileStorage.__init__(self, path, supports_mmap=supports_mmap)
@@ -194,11 +234,13 @@ class FaultStorage(FileStorage):
 
     def delete_file(self, name):
         self.clock.tick("delete", name)
-        return FileStorage.delete_file(self, name)
+        with _os_calls_tick(self.clock):
+            return FileStorage.delete_file(self, name)
 
     def rename_file(self, oldname, newname, safe=False):
         self.clock.tick("rename", "%s -> %s" % (oldname, newname))
-        return FileStorage.rename_file(self, oldname, newname, safe=safe)
+        with _os_calls_tick(self.clock):
+            return FileStorage.rename_file(self, oldname, newname, safe=safe)
 
     def lock(self, name):
         return CountingLock(FileLock(self._fpath(name)), self.clock, name)
